@@ -207,6 +207,8 @@ def run_e1(case, scratch_root, props, inject=None):
             ctl = Controller(pr, random.Random(inv.get("seed", 0)), case.get("e1_policy", "random-some"), inject)
             ctl.pos = pr._pos
             kw["poll"] = ctl.poll
+            if case.get("outer_env"):
+                kw["env_extra"] = case["outer_env"]
             if inv.get("unrelated"):
                 kw["prefork"] = [(random.Random(inv.get("seed", 0) + i).randint(20, 400), (u.get("exit", 0) if "exit" in u else 9)) for i, u in enumerate(inv["unrelated"])]
         r = pr.cond(argv, timeout=inv.get("timeout", 60), **kw)
@@ -419,6 +421,9 @@ def gen_cases(seed, n, focus, max_tasks=7):
                         "e1_policy_forced": "stop-batch"}
     for c in cases:
         c["e1_policy"] = c.pop("e1_policy_forced", None) or rng.choice(POLICIES)
+        if rng.random() < 0.3:
+            # cond started from inside another Conductor task (nested invocation): COND_* already set
+            c["outer_env"] = {"COND_SLOT": str(rng.choice([0, 3, 7])), "COND_NAME": "outer", "COND_OUT": "/outer/x.task", "COND_DEPS": ""}
         for inv in c["history"]:
             # real faults only: exit codes and signals (launch failures are E2's)
             for k in list(inv.get("script", {})):
